@@ -210,7 +210,7 @@ type blend struct {
 
 func drawLeaf(t *rapid.T, label string, S float64) (sdf.SDF2, string) {
 	size := func(l string) float64 { return g.Length(t, label+l, 0.01*S, S) }
-	switch rapid.IntRange(0, 3).Draw(t, label+".kind") {
+	switch rapid.IntRange(0, 4).Draw(t, label+".kind") {
 	case 0:
 		r := size(".r")
 		s, err := sdf.Circle2D(r)
@@ -228,10 +228,19 @@ func drawLeaf(t *rapid.T, label string, S float64) (sdf.SDF2, string) {
 	case 2:
 		l, rd := size(".l"), size(".rd")/4
 		return sdf.Line2D(l, rd), fmt.Sprintf("line(%s,r%s)", ev.F(l), ev.F(rd))
-	default:
+	case 3:
 		// capsule-like: a line with generous rounding
 		l, rd := size(".l"), size(".rd")
 		return sdf.Line2D(l, rd), fmt.Sprintf("line(%s,r%s)", ev.F(l), ev.F(rd))
+	default:
+		// regular polygon (exact since the polygon quadtree repairs, see C04)
+		n := rapid.IntRange(3, 9).Draw(t, label+".n")
+		r := size(".r")
+		s, err := sdf.Polygon2D(sdf.Nagon(n, r))
+		if err != nil {
+			t.Fatalf("Polygon2D(nagon %d %v): %v", n, r, err)
+		}
+		return s, fmt.Sprintf("nagon(%d,%s)", n, ev.F(r))
 	}
 }
 
